@@ -72,6 +72,8 @@ def gen_az(ctx):
 def describe(o):
     """an `az` op in words"""
     f = o.split()
+    if f[0] == "laz":
+        return "on a deployment loaded from a configuration file: " + describe(o[1:])
     if f[0] != "az":
         return o
     return ("authorization request %s client_id=%s audience=%r scope=%r nonce=%r state=%r code_challenge=%s redirect_uri=%r, "
@@ -93,6 +95,35 @@ def gen_jw(ctx):
     if not ctx.quick():
         ops += ["jw rsa3072 1 1 pkcs8", "jw p521 0 0 pkcs8", "jw p384 1 0 sec1"]
     return ops
+
+
+def gen_loader(ctx):
+    """round 3: the same token-endpoint and authorization ops on a deployment whose clients were WRITTEN into a
+    configuration file and loaded by the real loader; and flows whose redemption happens seconds after the
+    authorization, twice"""
+    ops = ["slow 2100"]
+    for cc, secret, ver, method, place in itertools.product(
+            ["confidentialOne", "publicOne"], ["right", "wrong", "absent"], ["right", "wrong", "absent"],
+            ["S256", "none", "nochallenge"], ["header", "form"]):
+        ops.append("ltok %s same %s %s %s same fresh %s mint" % (cc, secret, ver, method, place))
+    for cc, present, secret, ver in itertools.product(["confidentialOne", "publicOne"], ["other", "otherType"], ["right", "codeClients", "absent"],
+                                                      ["right", "absent"]):
+        ops.append("ltok %s %s %s %s S256 same fresh form mint" % (cc, present, secret, ver))
+    for cc, secret, ver, method in itertools.product(["confidentialOne", "publicOne"], ["right", "absent"], ["right", "wrong", "absent"], ["S256", "none", "nochallenge"]):
+        ops.append("ltok %s same %s %s %s same fresh form authz" % (cc, secret, ver, method))
+    for cl, aud, ch in itertools.product(AZ_CLIENTS, [None, "https://api.localhost", "https://api.evil.example"], ["none", "S256"]):
+        ops.append("l" + az_op(cl, aud, ch=ch))
+    if not ctx.quick():
+        ops.append("slow 3300")
+        for cc, present, secret, ver, method, redir, state, place in itertools.product(
+                ["confidentialOne", "publicOne"], ["same", "other"], ["right", "wrong", "absent"], ["right", "wrong", "absent", "challenge"],
+                ["S256", "plain", "none", "unknown"], ["same", "diff"], ["fresh", "expired", "tampered", "wrongkind"], ["header", "form"]):
+            ops.append("ltok %s %s %s %s %s %s %s %s mint" % (cc, present, secret, ver, method, redir, state, place))
+    return ops
+
+
+def truth_replay(o):
+    return ("slow " + o.split()[-1].split("-")[0]) if o.startswith("slow ") and len(o.split()) > 2 else o
 
 
 def un(h):
@@ -155,10 +186,11 @@ def drop(wire, keys):
 def run(ctx):
     facts = c.regen(ctx)
     c.prove(ctx)
-    ops = gen_jw(ctx) + gen_az(ctx) + gen_ops(ctx)
+    ops = gen_loader(ctx) + gen_jw(ctx) + gen_az(ctx) + gen_ops(ctx)
     if ctx.replay:
         rp = json.load(open(ctx.replay))
         ops = [v["replay"]["op"] for v in rp.get("violations", []) if "op" in v.get("replay", {})] or ops[:100]
+        ops = list(dict.fromkeys(("slow " + o.split()[-1].split("-")[0]) if o.startswith("slow ") and len(o.split()) > 2 else o for o in ops))
     impl, log, rc = run_harness_retry_c12(ctx, ops)
     if rc != 0 or len(impl) != len(ops):
         ctx.broken.append("harness TestVerifC12 did not complete (exit %d, %d/%d lines): %s" % (rc, len(impl), len(ops), log[-600:]))
@@ -168,11 +200,28 @@ def run(ctx):
     az_ops, az_expect, rel_ops, rel_meta, late = [], [], [], [], []
     jw_model_ops, jw_expect, jw_judge_ops, jw_meta, jw_hist = [], [], [], [], {}
     az_hist = {}
+    # one op may stand for several token requests (delayed / repeated redemption)
+    pairs = []
     for o, line in zip(ops, impl):
-        truth = None
+        if o.startswith("slow "):
+            if not line.startswith("slow | "):
+                ctx.broken.append("harness answered %r for %r" % (line[:200], o))
+                continue
+            for flow in line[7:].split(" ;; "):
+                parts = flow.split(" || ")
+                fh = parts[0].split()
+                fkv = dict(x.split("=", 1) for x in fh[2:])
+                for n, tl in enumerate(parts[1:], 1):
+                    label = "slow %s %s-built-deployment redemption-%d %s-ms-after-authorization" % (fh[1], fh[0], n, o.split()[1])
+                    pairs.append((label, tl, {"client": fh[1], "nonce": NONCE, "scope": "openid", "auds": [un(fkv["aud"])] if fkv["aud"] != "-" else [],
+                                              "tauth": int(fkv["tauth2"]), "exact": True, "replay": o}))
+            continue
+        pairs.append((o, line, None))
+    for o, line, truth in pairs:
+        oc = o[1:] if o.startswith(("ltok ", "laz ")) else o     # the same op on the loader-built deployment
         dep_keys, dep_alg = "1:rsa", "RS256"
-        if o.startswith("jw "):
-            f = o.split()
+        if oc.startswith("jw "):
+            f = oc.split()
             jhead, _, tokpart = line.partition(" || ")
             jh = jhead.split()
             jkv = dict(x.split("=", 1) for x in jh[2:] if "=" in x)
@@ -197,8 +246,8 @@ def run(ctx):
             dep_keys, dep_alg = jkv["trusted"], SIGNER_ALG.get(jkv["signer"].split(":")[1], "other")
             line = tokpart
             truth = {"client": "confidentialOne", "nonce": NONCE, "scope": "openid", "auds": [], "tauth": None}
-        if o.startswith("az "):
-            f = o.split()
+        if oc.startswith("az "):
+            f = oc.split()
             if not line.startswith("az "):
                 ctx.broken.append("harness answered %r for %r" % (line[:200], o))
                 continue
@@ -228,7 +277,8 @@ def run(ctx):
             if not tokpart:
                 continue
             line = tokpart
-            truth = {"client": client, "nonce": nonce or "", "scope": scope or "", "auds": [aud] if aud else [], "tauth": int(akv["tauth"])}
+            truth = {"client": client, "nonce": nonce or "", "scope": scope or "", "auds": [aud] if aud else [],
+                     "tauth": int(akv.get("tauth2", akv["tauth"])), "exact": "tauth2" in akv}
         if " | " not in line:
             ctx.broken.append("harness answered %r for %r" % (line[:200], o))
             continue
@@ -251,15 +301,15 @@ def run(ctx):
         mops.append(mop)
         jops.append(mop + (" acc" if cls == "released" else " rej"))
         meta.append((o, idec, kv, line, cls))
-        f = o.split()
-        hk = "%s/%s:%s" % ("confidential" if f[1].startswith("conf") or f[0] == "jw" else "public",
-                           f[9] if truth is None else f[0], cls)
+        f = oc.split()
+        hk = "%s/%s%s:%s" % ("confidential" if f[1].startswith("conf") or f[0] == "jw" else "public",
+                             "loader-" if o != oc or "loader-built" in o else "", f[9] if truth is None else f[0], cls)
         hist[hk] = hist.get(hk, 0) + 1
         if "LEAK" in rest:
             c.add_violation(ctx, "token-in-refusal", "a refused token request carried a token in its body", {"op": o, "impl": line})
         if cls == "released":
             # the released tokens, judged against the ground truth of the op (not against the model)
-            f = o.split()
+            f = oc.split()
             code = json.loads(bytes.fromhex(kv["wire"]))
             if truth is None:
                 presenter = {"confidentialOne": {"same": "confidentialOne", "other": "confidentialTwo", "otherType": "publicOne"},
@@ -273,9 +323,9 @@ def run(ctx):
             # the property's predicates (idTokenOK / accessTokenOK of the theorems), evaluated by the Lean judge
             rel_ops.append("rel %s %s %s %s %s %s %d %s %s" % (
                 hx(ISSUER), hx(presenter), hx(USER), hx(truth["nonce"]), hx(truth["scope"]),
-                ",".join(hx(a) for a in truth["auds"]) or "-", truth["tauth"] + SIXTEEN_H + 1,
+                ",".join(hx(a) for a in truth["auds"]) or "-", truth["tauth"] + SIXTEEN_H + (0 if truth.get("exact") else 1),
                 flat_wire(kv["idt"])[0], flat_wire(kv["acc"])[0]))
-            rel_meta.append((o, line, idt, acc))
+            rel_meta.append((o, line, idt, acc, truth["tauth"] + SIXTEEN_H + (0 if truth.get("exact") else 1)))
             bad = []
             if idt.get("iss") != ISSUER:
                 bad.append("iss=%r" % idt.get("iss"))
@@ -285,8 +335,8 @@ def run(ctx):
                 bad.append("sub=%r" % idt.get("sub"))
             if idt.get("nonce", "") != truth["nonce"]:
                 bad.append("nonce=%r" % idt.get("nonce"))
-            if not (idt.get("exp", 0) <= code.get("iat", 0) + SIXTEEN_H + 1):
-                bad.append("exp %r later than authorization %r + 16h" % (idt.get("exp"), code.get("iat")))
+            if not (idt.get("exp", 0) <= truth["tauth"] + SIXTEEN_H + (0 if truth.get("exact") else 1)):
+                bad.append("exp %r later than authorization (completed by %r) + 16h" % (idt.get("exp"), truth["tauth"]))
             if kv.get("jwks") != "1":
                 bad.append("tokens do not verify under the published JWKS")
             if kv.get("ui") != "ok:" + hx(USER):
@@ -323,12 +373,12 @@ def run(ctx):
                        [a[1] for a in az_expect], [("ok " + norm_code(l[3:])) if l.startswith("ok ") else l for l in azm])
     if rel_ops:
         rv = c.run_driver(ctx, "judge", rel_ops)
-        for (o, line, idt, acc), v in zip(rel_meta, rv):
+        for (o, line, idt, acc, exp_max), v in zip(rel_meta, rv):
             if v != "ok":
                 c.add_violation(ctx, "released:" + (v.split(" ", 1)[1] if " " in v else v),
-                                "released tokens violate the property: %s; %s -> id_token %s access_token %s" % (
-                                    v, describe(o), json.dumps(idt, sort_keys=True), json.dumps(acc, sort_keys=True)),
-                                {"op": o, "impl": line, "judge": v, "id_token": idt, "access_token": acc})
+                                "released tokens violate the property: %s; %s (authorization completed by %d, so exp may be at most %d) -> id_token %s access_token %s" % (
+                                    v, describe(o), exp_max - SIXTEEN_H, exp_max, json.dumps(idt, sort_keys=True), json.dumps(acc, sort_keys=True)),
+                                {"op": truth_replay(o), "impl": line, "judge": v, "id_token": idt, "access_token": acc})
     if jw_model_ops:
         jm = c.run_driver(ctx, "model", jw_model_ops)
         # compared on the keys that can sign tokens (RSA / ECDSA main signers): whether keys that never sign an ID
